@@ -21,6 +21,15 @@ CLAIMED = {
  'C02': dict(technique='Lean 4 theorems (uniqueness of the pairing, reference reduction is a certificate over every Z_p, dense persistent cohomology = reference pairs) + executable CAM model + differential correspondence + independent Python reduction',
              text='cert_unique, reduceAllP_cert and drun_final prove for any field and any boundary matrix that the reference reduction and the dense cohomology algorithm compute the same, unique pairing; gvdriver C02 runs the compressed-annotation-matrix model and the reference reduction (and compares them on every input) against Persistent_cohomology on simplex trees (two option sets), Hasse complexes and cubical complexes over Z_p, and the multi-field engine prime by prime, including min_interval_length, persistence_dim_max, Betti and persistent Betti numbers; a Python reduction is a second independent oracle.',
              note='Lean kernel + Mathlib linear algebra, standard axioms; CAM model ⊑ dense algorithm not yet proved (partial, compared on every input); multi-field projection is an executable spec', ref='§5 C02'),
+ 'C05': dict(technique='Lean 4 theorems (cert_unique, reference reduction is a certificate over Z2 and every Z_p, chain-basis invariants) + differential correspondence of every matrix instantiation against the reference barcode + identities evaluated on the real columns + Python reduction oracle',
+             text='The pairing of a reduced factorisation is proved unique, the executable reference reduction is proved to be such a factorisation for every prime, and the chain-basis insertion step is proved to preserve the compatible-basis invariants whose certificate gives the same barcode. Each compiled instantiation (covering array over column type x R / RU / chain x indexing x row access x removable x container x Z2/Zp; all that compile in the thorough tier) is driven through insertion / remove_last histories with default and custom identifiers and compared after the operations with gvdriver PM; the harness evaluates R reduced, B = R*U resp. R = B*V, pivots and the chain identities on the real columns.',
+             note='Lean kernel + Mathlib; no Lean model of the individual C++ matrix classes (partial): the compared object is the reference barcode of the current filtration; known finding: removal with custom identifiers in boundary-type matrices', ref='§5 C05'),
+ 'C06': dict(technique='Lean 4 theorems for every leaf of the RU vine swap at matrix level + cert_unique; differential correspondence after every swap / removal / later insertion against the reference barcode of the current filtration (= fresh build); truthfulness of the returned flag; identities on the real columns',
+             text='Fact3.addTo/conj/zeroEntry, reduced_conjSwap_gen and the leaf theorems vine_swap_only, vine_transpose, vine_NN_lt/gt, vine_NP, vine_PP_collision prove that each RU handler maps a reduced factorisation to a reduced factorisation of the exchanged filtration, whose barcode is by cert_unique that of a fresh build. RU and chain instantiations (container, position and identifier indexing, map/vector containers, several column types) are driven through random walks of admissible swaps interleaved with insertions, remove_last and remove_maximal_cell and compared after every step with gvdriver PM; the harness checks the returned value against the old and new barcodes and re-evaluates the identities.',
+             note='C++ handlers and the chain flavour are not modelled leaf by leaf (partial); two known findings (chain insertion after swaps; identifier-indexed RU default identifiers after removals) are replayed as witnesses', ref='§5 C06'),
+ 'C08': dict(technique='Lean 4 theorems (rep_is_cycle, rep_youngest, rep_dies, chain_cert) + correspondence of the number of cycles with the reference barcode + every returned cycle checked against the real boundaries in the harness',
+             text='From any certificate the columns of V at zero columns of R are proved to be cycles with youngest cell the birth, becoming boundaries exactly at the paired column; the chain flavour has the same through chain_cert. For RU (with and without vine updates, Z2 and Zp) and chain instantiations, after insertions, swaps and removals, update_representative_cycles is called (repeatedly) and every returned cycle is checked on the real boundary data: zero boundary, homogeneous dimension, youngest cell = birth, one cycle per bar.',
+             note='basis clause not proved (partial); Zp cycles come without coefficients (support-level checks only); known finding: chain representative cycles assume identifier = position', ref='§5 C08'),
 }
 ALL = ['C%02d' % i for i in range(1, 21)]
 checks = []
